@@ -1,6 +1,6 @@
 (* C07 — contracts pay out exactly once; revisions keep totals; storage proofs. *)
 From Coq Require Import ZArith List Bool.
-From Sia Require Import Prim.Result Prim.Tok Policy.Model Ledger.Types Ledger.Mid Ledger.Validate Ledger.Apply Ledger.Proofs Merkle.Rhp Merkle.StorageProof.
+From Sia Require Import Prim.Result Prim.Tok Policy.Model Ledger.Types Ledger.Mid Ledger.Validate Ledger.Apply Ledger.Proofs Merkle.Rhp Merkle.StorageProof Merkle.StorageSound.
 Import ListNotations.
 Open Scope Z_scope.
 
@@ -56,3 +56,23 @@ Theorem C07_storage_proof_sound_same_length : forall H (L : list bytes) filesize
   (x = nth i L d /\ proof = sp_prove H (length L) L i) \/ NodeCollision H.
 Proof. exact storage_proof_v2_sound_same_length. Qed.
 Print Assumptions C07_storage_proof_sound_same_length.
+
+(* soundness for every proof length the verifier lets through (at least the merge height of the index with the last
+   leaf): for a file of any size, what verifies against the plain root of the leaf hashes is the hash of leaf i itself
+   with exactly the siblings of leaf i -- or a collision is exhibited: two different pairs with one node hash, or a value
+   that is both a leaf hash H(0x00 ++ _) and a node hash H(0x01 ++ _) *)
+Theorem C07_storage_proof_sound : forall H (L : list bytes) filesize i d x proof, 0 < filesize < 2 ^ 64 ->
+  Z.of_nat (length L) = sp_num_leaves filesize -> (i < length L)%nat ->
+  Forall (leaf_hash_form H) L -> leaf_hash_form H x ->
+  StorageProof.blen (Z.lxor (Z.of_nat i) (Z.of_nat (length L) - 1)) <= Z.of_nat (length proof) ->
+  sp_root_v2 H x (Z.of_nat i) filesize proof = mroot H L ->
+  (x = nth i L d /\ proof = sp_prove H (length L) L i) \/ Collision H (leaf_hash_form H).
+Proof. exact storage_proof_v2_sound. Qed.
+Print Assumptions C07_storage_proof_sound.
+
+(* a proof shorter than the merge height gets the invalid marker (32 zero bytes) *)
+Theorem C07_storage_proof_short : forall H x i filesize proof,
+  let last := (if filesize mod 64 =? 0 then (filesize / 64 - 1) mod 2 ^ 64 else filesize / 64) in
+  (length proof < Z.to_nat (StorageProof.blen (Z.lxor i last)))%nat -> sp_root_v2 H x i filesize proof = repeat 0%N 32.
+Proof. exact sp_root_v2_short. Qed.
+Print Assumptions C07_storage_proof_short.
